@@ -293,6 +293,22 @@ def parseExpect (s : String) (implRange : String) : PredDl.Expect :=
   | ["bad", k, rs] => if rs == implRange then (match k.toNat? with | some k => .bad k | none => .any) else .any
   | _ => .any
 
+
+/-! ### C04 / C11: the update procedure -/
+
+def showUpd (pfx : String) (o : Update.Out) : String :=
+  let rng (l : List (Nat × Nat)) := ";".intercalate (l.map fun p => s!"{p.1}-{p.2}")
+  let parts : List String :=
+    [s!"{pfx}hdr={rng o.hdrReqs}"] ++
+    (match o.scan with | some (r, fl) => [s!"{pfx}scan={r}:{showFlags fl}"] | none => []) ++
+    (match o.copy with | some fl => [s!"{pfx}copy={showFlags fl}"] | none => []) ++
+    (if o.copy.isSome && (o.err.isNone || o.err == some "download" || o.err == some "no-progress") then
+       [s!"{pfx}reqs={if o.reqs.isEmpty then "-" else ";".intercalate o.reqs}"] ++
+       (if o.err == some "no-progress" then [] else [s!"{pfx}rounds={o.rounds}"]) else []) ++
+    (match o.err with | some e => [s!"{pfx}err={e}"] | none => []) ++
+    (match o.vd with | some v => [s!"{pfx}vd={v}", s!"{pfx}missing={o.missing}", s!"{pfx}failed={o.failed}"] | none => [])
+  " ".intercalate parts
+
 /-! ### C12: io.c under fault schedules -/
 
 def parseSched (s : String) : Option (List IoFault.Fault) :=
@@ -610,6 +626,36 @@ def handleIO (op : String) (args : List String) (impl : Option (List String)) : 
         | _ => false
       return (out, pv)
     | _, _, _ => return ("ERR open", impl.map fun i => i == ["ERR", "open"])
+  | "UPDATE", [bpath, apath, tpath, maxr, frag, _kill] =>
+    -- `<tpath>.before`: the target before the op; `<tpath>.killed`: the target at the kill point (if the kill fired)
+    let bB ← readFile bpath
+    let aB ← (do if apath == "-" then pure none else let x ← readFile apath; pure (some x))
+    let itoks := impl.getD []
+    let killed := itoks.any (·.startsWith "killed=")
+    let t0 ← readFile (if killed then tpath ++ ".killed" else tpath ++ ".before")
+    let ta ← (do if impl.isSome then readFile tpath else pure [])
+    let pfx := if killed then "r." else ""
+    match maxr.toInt? with
+    | some limit =>
+      let fr := if frag.startsWith "b" then (frag.drop 1).toString.toNat?.getD 0 else 0
+      let o := Update.update Sha.zckHash (mkRx itoks) aB bB t0 limit fr
+      let out := s!"OK {showUpd pfx o} len={o.file.length} ub=0 file={PredRead.showBytes o.file}"
+      let pv := impl.map fun i =>
+        match i with
+        | "OK" :: rest =>
+          let scanFl := match kv rest (pfx ++ "scan") with
+            | some s => (match s.splitOn ":" with | [_, fl] => flagsOf fl | _ => [])
+            | none => []
+          let reqs := match kv rest (pfx ++ "reqs") with
+            | some s => if s == "-" then [] else s.splitOn ";"
+            | none => []
+          let vd := (kv rest (pfx ++ "vd")).bind (·.toInt?)
+          let missing := ((kv rest (pfx ++ "missing")).bind (·.toNat?)).getD 1
+          let err := (kv rest (pfx ++ "err")).isSome || (kv rest "ub") != some "0"
+          PredUpd.c04_ok Sha.zckHash aB bB t0 scanFl reqs vd missing err ta
+        | _ => false
+      return (out, pv)
+    | none => return ("BADOP", none)
   | "META", [path] =>
     let f ← readFile path
     let m := Header.openFile Sha.zckHash f
